@@ -3,7 +3,7 @@
    parser and the 5 000-line regenerator); it is decided by enumeration on the implementation.  Proved here: two global
    passes of the regenerator on which every document depends, as mechanism kernels. *)
 From Coq Require Import List ZArith NArith Bool Arith.
-Require Import PV.Base.Str PV.Model.Splice PV.Proofs.SpliceProofs.
+Require Import PV.Base.Str PV.Model.Splice PV.Proofs.SpliceProofs PV.Model.Codec PV.Proofs.CodecProofs.
 Import ListNotations.
 
 (* for every document (list of lines), whatever lines are pragmas and whichever prefix they use: taking the pragma lines out
@@ -28,6 +28,22 @@ Print Assumptions strip_markers_id.
 Theorem strip_markers_refuted : exists s, strip_markers s <> s.
 Proof. exists [97; 254; 98]%N. vm_compute. discriminate. Qed.
 Print Assumptions strip_markers_refuted.
+
+(* the in-band marker codec of ParserHelper: for every text the parser can write - any sequence of literal text (the five
+   control characters in it escaped; no literal ESC), backslash escapes, character references and empty replacements -
+   remove_all gives back exactly the source text and resolve_all exactly the rendered text *)
+Theorem codec_remove_all_gives_source : forall ps, Forall (fun p => piece_ok p = true) ps -> remove_all (enc ps) = Some (src ps).
+Proof. exact remove_all_gives_source_l. Qed.
+Print Assumptions codec_remove_all_gives_source.
+
+Theorem codec_resolve_all_gives_text : forall ps, Forall (fun p => piece_ok p = true) ps -> resolve_all (enc ps) = Some (out ps).
+Proof. exact resolve_all_gives_text_l. Qed.
+Print Assumptions codec_resolve_all_gives_text.
+
+(* the hypothesis `no literal ESC` is needed: a literal U+0005 in front of another control character does not survive *)
+Theorem codec_literal_esc_refuted : exists s, resolve_escapes None (escape s) <> s.
+Proof. exact escape_esc_refuted_l. Qed.
+Print Assumptions codec_literal_esc_refuted.
 
 Example c02_example :
   let isp := fun l => prefix_b [60;33]%N l in let alt := fun l => prefix_b [60;33;45;45;45]%N l in
